@@ -740,6 +740,12 @@ dt_strpdt(const char *str, const char *fmt, char **ep)
 		if (spec.spfl == DT_SPFL_UNK) {
 			/* must be literal */
 			if (UNLIKELY(*fp_sav != *sp++)) {
+				if (transd && *fp_sav == 'T') {
+					/* calendar names: the time of day
+					 * is optional, the date ends here */
+					sp--;
+					goto transd;
+				}
 				goto fucked;
 			}
 		} else if (LIKELY(!spec.rom)) {
